@@ -273,6 +273,9 @@ func (c *core) sync(fromID uint32, unknownEvents []hg.WireEvent) error {
 // recordHeads adds heads as SelfEvents
 func (c *core) recordHeads() error {
 	c.logger.WithField("heads", len(c.heads)).Debug("RecordHeads()")
+	if handled, err := simRecordHeads(c); handled {
+		return err
+	}
 
 	for id, ev := range c.heads {
 		op := ""
@@ -697,6 +700,7 @@ func (c *core) eventDiff(otherKnown map[uint32]int) (events []*hg.Event, err err
 
 	}
 
+	simCanonicalise(unknown)
 	sort.Sort(hg.ByTopologicalOrder(unknown))
 
 	return unknown, nil
